@@ -1,5 +1,10 @@
 package dtls
 
+// GENERATED from harness/C14/notify.go (only the session-store adapter entry is kept as an entry). C07 needs it for
+// "secrets are not computable from the cleartext part of the handshake": if the glue reported an unknown session as
+// present (non-nil empty id) the server would run an abbreviated handshake from an EMPTY master secret, and record
+// keys, Finished and every exporter value would be a function of the two public randoms.
+
 //symgo:pkg github.com/pion/dtls/v3
 //symgo:param NKEY quick=2 thorough=3
 //symgo:stub nextConn is a fake netctx.PacketConn that records written datagrams; the remote address is a harness net.Addr with a fixed String(); the cipher suite is a harness fake whose Encrypt returns its input; the session store is an abstract list of (key, id, secret) entries that logs Del calls in one event log shared with the network fake
@@ -171,7 +176,6 @@ func zzNConn(isClient bool, nw *zzNNet, cfg *dtlsconfig.HandshakeConfig) *Conn {
 // store is not touched at all and exactly one alert record is written. The session key used by notify is
 // the one the flight handlers use for Get/Set (handshakeConn.SessionKey).
 //
-//symgo:entry covers=alert_after_establishment,alert_during_handshake,client_dropped,server_dropped,warning_keeps,no_id_keeps,no_store,dtls13_keeps,other_key_untouched,del_fails
 func zzFatalDropsSession() {
 	ev := &zzNEvents{}
 	nw := &zzNNet{ev: ev}
